@@ -10,6 +10,7 @@ import (
 	"encoding/json"
 	"errors"
 	"fmt"
+	"io"
 	"os"
 	"os/exec"
 	"sort"
@@ -77,6 +78,10 @@ func buildEngine(s EngSpec) (*twig.Engine, *Spies) {
 	}
 	if s.CacheOff {
 		e.SetCache(false)
+	}
+	if s.Debug {
+		twig.SetDebugWriter(io.Discard)
+		e.SetDebug(true)
 	}
 	if s.AutoReload {
 		e.SetAutoReload(true)
